@@ -384,27 +384,49 @@ func init() {
 	})
 
 	// ----- time: time.Time is abstracted to {wall:0, ext: nanoseconds, loc:nil}; Now() is an arbitrary
-	// non-decreasing clock with 0 < now < 2^62 -----
+	// non-decreasing clock with 0 < now < 2^39 ns after an arbitrary origin -----
 	mkTime := func(ns *smt.Term) Value { return &StructV{F: []Value{smt.BVC(64, 0), ns, PtrV{}}} }
 	tns := func(v Value) *smt.Term { return v.(*StructV).F[1].(*smt.Term) }
 	reg("time.Now", func(m *M, fn *ssa.Function, a []Value, r ssa.Value) Value {
+		if m.st.ClockFrozen && m.st.ClockLast != nil {
+			return mkTime(m.st.ClockLast)
+		}
 		occ := m.st.bumpOcc("time.Now")
-		v := smt.Var(fmt.Sprintf("now_%d", occ), smt.BV(64))
-		m.st.Nondets = append(m.st.Nondets, NondetRec{Key: fmt.Sprintf("time.Now#%d", occ), Kind: "clock", T: v})
-		lo := smt.BVC(64, 1)
+		// the clock is a mathematical integer (nanoseconds) in the solver; its bit-vector image is int2bv of it
+		iv := smt.Var(fmt.Sprintf("now_%d", occ), smt.Int)
+		m.st.Nondets = append(m.st.Nondets, NondetRec{Key: fmt.Sprintf("time.Now#%d", occ), Kind: "clock", T: iv})
+		v := smt.Int2BV(64, iv)
+		v.Hint = "nn"
+		var lo *smt.Term = smt.BVC(64, 1)
 		if m.st.ClockLast != nil {
 			lo = m.st.ClockLast
 		}
-		m.st.PC = append(m.st.PC, smt.BVSle(lo, v), smt.BVSlt(v, smt.BVC(64, 1<<62)))
+		// instants are below 2^39 ns (~9 minutes) apart from the origin so that the Int lifting of the engine applies
+		m.st.PC = append(m.st.PC, smt.BVSle(lo, v), smt.IntLt(iv, smt.IntC(1<<39)))
 		m.st.ClockLast = v
-		m.ex.noteAssumption("time.Now() is an arbitrary non-decreasing clock (ns since an arbitrary origin, 0 < now < 2^62); time.Time is abstracted to a nanosecond count (no monotonic/wall split, no locations)")
+		m.ex.noteAssumption("time.Now() is an arbitrary non-decreasing clock (ns since an arbitrary origin, 0 < now < 2^39 ns after an arbitrary origin); time.Time is abstracted to a nanosecond count (no monotonic/wall split, no locations)")
 		return mkTime(v)
 	})
 	reg("(time.Time).Add", func(m *M, fn *ssa.Function, a []Value, r ssa.Value) Value {
 		return mkTime(smt.BVAdd(tns(a[0]), tv(a[1])))
 	})
 	reg("(time.Time).Sub", func(m *M, fn *ssa.Function, a []Value, r ssa.Value) Value {
-		return smt.BVSub(tns(a[0]), tns(a[1]))
+		t, u := tns(a[0]), tns(a[1])
+		d := smt.BVSub(t, u)
+		// the zero Time (year 1) is centuries away from any clock reading: Sub saturates
+		zero := smt.BVC(64, 0)
+		uz := smt.And(smt.Eq(u, zero), smt.Not(smt.Eq(t, zero)))
+		tz := smt.And(smt.Eq(t, zero), smt.Not(smt.Eq(u, zero)))
+		if uz.IsFalse() && tz.IsFalse() {
+			return d
+		}
+		if uz.IsTrue() {
+			return smt.BVC(64, 1<<63-1)
+		}
+		if tz.IsTrue() {
+			return smt.BVC(64, 1<<63)
+		}
+		return smt.Ite(uz, smt.BVC(64, 1<<63-1), smt.Ite(tz, smt.BVC(64, 1<<63), d))
 	})
 	reg("time.Since", func(m *M, fn *ssa.Function, a []Value, r ssa.Value) Value {
 		now := intrinsics["time.Now"](m, fn, nil, nil)
